@@ -410,6 +410,10 @@ class SlavePort(core_ports.BasePort):
         self._history_last_timestamp = data.get('history_last_timestamp', 0)
         self._provisioning = set(data.get('provisioning', []))
 
+        # A value that was pending when the port was saved is the one to be provisioned
+        if 'value' in self._provisioning and 'value' in data:
+            self._cached_value = data['value']
+
         # Enable if enabled remotely
         await self.update_enabled()
 
